@@ -253,6 +253,78 @@ func longFamilies(n int) []longFrame {
 	return out
 }
 
+// longWide: repeated sections that span more than 64 KiB and more than
+// 128 KiB, with element sizes that are powers of two (1, 2, 4, 8 bytes): a
+// decoder that keeps an offset in 16 bits comes back to the same place.
+func longWide() []longFrame {
+	var out []longFrame
+	add := func(name string, n int, p *spec.Packet) {
+		b, _, err := spec.Encode(p, spec.Form{})
+		if err == nil {
+			out = append(out, longFrame{name, n, b})
+		}
+	}
+	for _, total := range []int{70000, 150000} {
+		for _, el := range []struct {
+			name   string
+			stride int
+			mk     func(n int) *spec.Packet
+		}{
+			{"UNSUBSCRIBE.filters.4B", 4, func(n int) *spec.Packet {
+				p := &spec.Packet{Type: 10, Flags: 2, PacketID: 1}
+				for i := 0; i < n; i++ {
+					p.Filters = append(p.Filters, spec.Filter{Topic: []byte("ab")})
+				}
+				return p
+			}},
+			{"UNSUBSCRIBE.filters.8B", 8, func(n int) *spec.Packet {
+				p := &spec.Packet{Type: 10, Flags: 2, PacketID: 1}
+				for i := 0; i < n; i++ {
+					p.Filters = append(p.Filters, spec.Filter{Topic: []byte("abcdef")})
+				}
+				return p
+			}},
+			{"SUBSCRIBE.filters.4B", 4, func(n int) *spec.Packet {
+				p := &spec.Packet{Type: 8, Flags: 2, PacketID: 1}
+				for i := 0; i < n; i++ {
+					p.Filters = append(p.Filters, spec.Filter{Topic: []byte("a"), Opts: 1})
+				}
+				return p
+			}},
+			{"SUBSCRIBE.filters.8B", 8, func(n int) *spec.Packet {
+				p := &spec.Packet{Type: 8, Flags: 2, PacketID: 1}
+				for i := 0; i < n; i++ {
+					p.Filters = append(p.Filters, spec.Filter{Topic: []byte("abcde"), Opts: 2})
+				}
+				return p
+			}},
+			{"SUBACK.codes.1B", 1, func(n int) *spec.Packet {
+				p := &spec.Packet{Type: 9, PacketID: 1}
+				p.Codes = make([]byte, n)
+				return p
+			}},
+			{"PUBLISH.subids.2B", 2, func(n int) *spec.Packet {
+				p := &spec.Packet{Type: 3, Topic: []byte("t")}
+				for i := 0; i < n; i++ {
+					p.Props = append(p.Props, spec.Prop{ID: 0x0b, N: 1 + uint32(i%100)})
+				}
+				return p
+			}},
+			{"CONNACK.userprops.8B", 8, func(n int) *spec.Packet {
+				p := &spec.Packet{Type: 2}
+				for i := 0; i < n; i++ {
+					p.Props = append(p.Props, spec.Prop{ID: 0x26, B: []byte("kk"), V: []byte("v")})
+				}
+				return p
+			}},
+		} {
+			n := total / el.stride
+			add(fmt.Sprintf("%s.%dKiB", el.name, total>>10), n, el.mk(n))
+		}
+	}
+	return out
+}
+
 func reframe(first byte, body []byte) []byte {
 	m := append([]byte{first}, spec.AppendVarint(nil, uint32(len(body)))...)
 	return append(m, body...)
@@ -269,7 +341,7 @@ func runC05(x *core.Ctx) {
 	seenClass := map[string]bool{}
 	maxSteps := map[string]float64{}
 	run := func(c *rawCase) bool {
-		measure := x.Thorough() || strings.HasPrefix(c.Stratum, "F4.") || strings.HasPrefix(c.Stratum, "long")
+		measure := x.Thorough() || strings.HasPrefix(c.Stratum, "F4.") || (strings.HasPrefix(c.Stratum, "long") || strings.HasPrefix(c.Stratum, "wide"))
 		if !measure {
 			t := 0
 			if len(c.Stream) > 0 {
@@ -381,6 +453,24 @@ func runC05(x *core.Ctx) {
 					m[at] = v
 					run(&rawCase{Stratum: fmt.Sprintf("long%d.corrupted", n), Stream: reframe(lf.b[0], m), Direct: -1})
 				}
+			}
+		}
+	}
+	for _, lf := range longWide() {
+		if !x.Mine() {
+			continue
+		}
+		if x.Expired() {
+			return
+		}
+		_, hn, _ := spec.ReadVarint(lf.b[1:])
+		hdr := 1 + hn
+		body := lf.b[hdr:]
+		run(&rawCase{Stratum: "wide.valid", Stream: lf.b, Direct: -1})
+		run(&rawCase{Stratum: "wide.valid.direct", Stream: body, Direct: int(lf.b[0] >> 4)})
+		for _, cut := range []int{len(body) - 1, len(body) - 2, 65535, 65536, 65537} {
+			if cut < len(body) {
+				run(&rawCase{Stratum: "wide.truncated", Stream: reframe(lf.b[0], body[:cut]), Direct: -1})
 			}
 		}
 	}
